@@ -185,6 +185,13 @@ def spec_cases(form, nums, L):
 
 def analyse(ctx):
     """run PX on the parser and return rows for the rules"""
+    if hasattr(ctx, "_rp"):
+        return ctx._rp
+    ctx._rp = _analyse(ctx)
+    return ctx._rp
+
+
+def _analyse(ctx):
     adt, variant, fns, sites = find_parser(ctx)
     if len(fns) != 1:
         from ..check import FailClosed
@@ -226,3 +233,35 @@ def value_variant(v):
     if is_agg(v):
         return v[3]
     return None
+
+
+def rng_refinement(ctx, rule):
+    """refinement RNG: every Range pushed into the resolved list satisfies start < end <= len"""
+    from .common import where, short
+    A = analyse(ctx)
+    L = A["L"]
+    n = 0
+    for idx, row in enumerate(A["rows"]):
+        for pv in row["pushes"]:
+            n += 1
+            v = pv["args"][1]
+            if not (is_agg(v) and v[2] and v[2].endswith("ops::Range")):
+                ctx.violation(rule, rule + "|push-shape", "pushed value is not a Range aggregate", where=where(pv))
+                continue
+            s, e = agg_get(v, "start"), agg_get(v, "end")
+            cc = P.Cons()
+            cc.rel = list(row["o"].cons.rel[:pv.get("nrel", len(row["o"].cons.rel))])
+            z = Zone(cc, extra_terms=(s, e, L))
+            bad = []
+            if not z.entails("Lt", s, e):
+                bad.append("start < end is not implied (an empty or inverted range can be pushed)")
+            if not z.entails("Le", e, L):
+                bad.append("end <= len is not implied (a range can extend past the entity)")
+            inst = "push#%d %s" % (idx, row["form"])
+            if bad:
+                ctx.violation(rule, "%s|%s" % (rule, row["form"]), "resolved range %s..%s: %s" % (short(s, 50), short(e, 50), "; ".join(bad)), where=where(pv))
+            else:
+                ctx.ok(rule, inst, where=where(pv), detail={"start": short(s, 60), "end": short(e, 60)})
+    ctx.floor(rule, n, 3, what="push sites x paths of the range parser")
+    # closed world: the resolved-list variant is constructed in the parser only
+    ctx.ok(rule, "construction sites of %s::%s are all in %s" % (A["adt"], A["variant"], A["fn"]), detail={"sites": len(A["sites"])})
